@@ -6,6 +6,12 @@
 (* applies up to MaxMut mutations: a cell replaced by a value of a given class, a row      *)
 (* added / commented out / duplicated, a column blanked.  For the mutated file the spec    *)
 (* predicts the documented outcome: "ok" (every column in its domain) or "invalid".        *)
+(* Names: every column denotes a configuration with a name -- the explicit one or, for an  *)
+(* unnamed column, one generated from the column's position.  The name row is mutated in   *)
+(* one or two DIFFERENT columns (empty = unnamed, odd text, the neighbour's name, or an    *)
+(* explicit name spelled like the generated name of column t, for every t, in both orders   *)
+(* of the two columns); two non-blank columns denoting the same name make the file invalid  *)
+(* (NamesDistinct), and an accepted file has one configuration per non-blank column.        *)
 (* The prediction is a cross-check; the alarm of C28 (nothing but the invalid-features     *)
 (* error, and returned values in domain) is evaluated by CodecFeaturesCsvTrace.tla on the  *)
 (* recorded results.                                                                        *)
@@ -20,8 +26,15 @@ IntLike == IntFields \cup VpIntFields \cup {"picture_bytes"}
 EnumLike == EnumFields \cup VpEnumFields
 BoolLike == BoolFields \cup VpBoolFields
 
+\* "auto_t": an explicit name spelled like the name generated for an unnamed column t
+AutoNames == <<"auto_1", "auto_2", "auto_3", "auto_4", "auto_5", "auto_6">>
+AutoTarget(k) == CHOOSE t \in 1..Len(AutoNames) : AutoNames[t] = k
+NameClasses(n) == {"empty", "odd", "ws", "dupname"} \cup {AutoNames[t] : t \in 1..n}
+\* name classes that may be combined with a name mutation in another column
+CrossNameClasses(n) == NameClasses(n) \ {"dupname"}
+
 ClassesOf(f) ==
-  IF f = "name" THEN {"empty", "odd", "ws", "dupname"}
+  IF f = "name" THEN NameClasses(6)
   ELSE IF f = "quantization_matrix" THEN {"empty", "default", "malformed", "qm_ok", "qm_short", "qm_long", "qm_nonint"}
   ELSE IF f \in EnumLike THEN {"empty", "default", "malformed", "negative", "big", "int_ok", "int_oob", "name_ok", "name_bad", "ws"}
   ELSE IF f \in BoolLike THEN {"empty", "default", "malformed", "negative", "big", "true", "false"}
@@ -74,11 +87,23 @@ QmValid(c) ==
 Blank(c) == <<"blank", c>> \in struct
 \* "dupname" copies the name of the next column; an empty name cell gets a generated name
 OtherCol(c) == (c % B.ncols) + 1
-NameValid(c) == ~(cells[c]["name"] = "dupname" /\ ~Blank(OtherCol(c)))
+\* the name a column denotes: <<"base", c>> the name shipped in column c (the shipped names are distinct
+\* and none is spelled like a generated one: assumption stated by the driver), <<"auto", t>> the name
+\* generated for position t, <<"odd", c>> an odd text (made distinct per column by the driver)
+NameVal(c) == LET k == cells[c]["name"] IN
+  IF k \in {"keep", "ws"} THEN <<"base", c>>
+  ELSE IF k = "empty"   THEN <<"auto", c>>
+  ELSE IF k = "odd"     THEN <<"odd", c>>
+  ELSE IF k = "dupname" THEN <<"base", OtherCol(c)>>
+  ELSE <<"auto", AutoTarget(k)>>
+\* a deleted / commented-out name row leaves every column unnamed
+NameOf(c) == IF <<"comment", "name">> \in struct \/ <<"delete", "name">> \in struct THEN <<"auto", c>> ELSE NameVal(c)
+NamesDistinct == \A c1, c2 \in Cols : (c1 < c2 /\ ~Blank(c1) /\ ~Blank(c2)) => NameOf(c1) # NameOf(c2)
+Configurations == Cardinality({c \in Cols : ~Blank(c)})
 ColValid(c) ==
   \/ Blank(c)
   \/ /\ \A f \in AllFields \ {"name", "picture_bytes", "quantization_matrix"} : SimpleValid(c, f)
-     /\ PictureBytesValid(c) /\ QmValid(c) /\ NameValid(c)
+     /\ PictureBytesValid(c) /\ QmValid(c)
 
 \* a row commented out or deleted is missing in every column
 RowGone(f) == <<"comment", f>> \in struct \/ <<"delete", f>> \in struct
@@ -86,6 +111,7 @@ GoneOk(f, c) == f = "name" \/ (f = "picture_bytes" /\ Lossless(c))
 Outcome ==
   IF <<"extra">> \in struct THEN "invalid"
   ELSE IF \E f \in AllFields : RowGone(f) /\ \E c \in Cols : ~Blank(c) /\ ~GoneOk(f, c) THEN "invalid"
+  ELSE IF ~NamesDistinct THEN "invalid"
   ELSE IF \A c \in Cols : ColValid(c) THEN "ok" ELSE "invalid"
 
 (* ---- behaviours ---- *)
@@ -102,12 +128,17 @@ ArgOf(c, f, k) ==
     [] k = "qm_long"   -> QmLength(DepthVal(c, "dwt_depth"), DepthVal(c, "dwt_depth_ho")) + 1
     [] OTHER -> 0
 
-MayMutate(c, f) == Len(hist) = 0 \/ (c \in PairCols /\ f \in Interacting /\ inp.m = "cell" /\ inp.c = c /\ inp.f \in Interacting)
+MayMutate(c, f) == \/ Len(hist) = 0
+                   \/ (c \in PairCols /\ f \in Interacting /\ inp.m = "cell" /\ inp.c = c /\ inp.f \in Interacting)
+                   \* the name row in two different columns (any two, either one first)
+                   \/ (f = "name" /\ inp.m = "cell" /\ inp.f = "name" /\ inp.c # c /\ inp.k \in CrossNameClasses(B.ncols))
 
 MutateCell == \E c \in Cols, f \in AllFields : \E k \in ClassesOf(f) :
   /\ Len(hist) < MaxMut /\ MayMutate(c, f)
   /\ ~(k \in {"qm_ok", "qm_short", "qm_long"} /\ Big \in {DepthVal(c, "dwt_depth"), DepthVal(c, "dwt_depth_ho")})
   /\ ~(k = "dupname" /\ B.ncols < 2)
+  /\ (f = "name") => k \in NameClasses(B.ncols)
+  /\ (f = "name" /\ Len(hist) > 0 /\ inp.f = "name" /\ inp.c # c) => k \in CrossNameClasses(B.ncols)
   /\ cells[c][f] = "keep"
   \* a matrix written for the current depths is not followed by a change of the depths (the other order is explored)
   /\ ~(f \in {"dwt_depth", "dwt_depth_ho"} /\ cells[c]["quantization_matrix"] \in {"qm_ok", "qm_short", "qm_long"})
@@ -138,6 +169,12 @@ LosslessExcludesPictureBytes == obs = "ok" =>
 OkMeansInDomain == obs = "ok" =>
   \A c \in Cols : ~Blank(c) => \A f \in AllFields :
      cells[c][f] \notin {"malformed", "negative", "below_min", "int_oob", "name_bad", "qm_short", "qm_long", "qm_nonint"}
+
+\* an accepted file has pairwise distinct names, i.e. one configuration per non-blank column
+AcceptedMeansDistinctNames == obs = "ok" => NamesDistinct
+\* an explicit name spelled like the generated name of an unnamed non-blank column is never accepted
+AutoCollisionRejected == obs = "ok" =>
+  \A c, t \in Cols : (c # t /\ ~Blank(c) /\ ~Blank(t) /\ cells[t]["name"] = "empty") => cells[c]["name"] # AutoNames[t]
 
 View == <<file, cells, struct, obs, inp>>
 =============================================================================
